@@ -15,7 +15,8 @@ and every call sequence.
   `partialFit_rejected_atomic`, and its limits `partialFit_error_not_atomic_counterexample`);
 * `clf_is_fresh_fit_partial` (+ `…_counterexample`): emulated path, induction over the call sequence;
 * `clf_is_replay`: native path (and in fact every path), by naturality of the model in the classifier;
-* `speedup_eq_direct`, `speedup_nan_raises`, `speedup_prefitted_counterexample`: the precomputed kernel.
+* `speedup_eq_direct`, `speedup_nan_raises`, `speedup_never_changes_prediction` (full strength over
+  histories since /repo commit 1805c2fd; the old behaviour is kept in `Ska.C19.Regressions`).
 -/
 
 namespace Ska.C19
@@ -715,25 +716,252 @@ theorem speedup_eq_direct {R : Type} (cfg : Cfg L W) (predRows : Kind → List (
   · simp [planEval, hdir]
   · simp [planEval]
 
-/- Full statement (false): "enabling `use_speed_up` never changes what `predict`, `predict_proba`,
-   `predict_freq` return" — see the next theorem for the case without `idx_`. -/
+/-! ### Speed-up on vs off over whole histories (full strength since /repo commit 1805c2fd) -/
 
-/-- `speedup_prefitted_counterexample` — a Parzen window classifier handed over already fitted, no `fit`
-through the wrapper yet: with the speed-up `predict` and `predict_freq` answer with
-`self.clf.predict_proba(...)` (plan `orig proba`), without it with `clf_.predict` / `clf_.predict_freq`. -/
-theorem speedup_prefitted_counterexample :
-    let cfgOn : Cfg Nat Nat := ⟨3, [0, 1, 0], none, false, false, true⟩
-    let cfgOff : Cfg Nat Nat := ⟨3, [0, 1, 0], none, false, false, false⟩
-    let sOn : Except Err (St Nat Nat Nat) := init cfgOn (some 7) false
-    let sOff : Except Err (St Nat Nat Nat) := init cfgOff (some 7) false
-    let tOn : St Nat Nat Nat := ⟨none, none, none, none⟩
-    let tOff : St Nat Nat Nat := ⟨some 7, none, none, none⟩
-    sOn = .ok tOn ∧ sOff = .ok tOff ∧
-    predictPlan (κ := Nat) cfgOn true tOn Tab.empty .label [0, 2] = .ok (.orig .proba [0, 2]) ∧
-    predictPlan (κ := Nat) cfgOn true tOn Tab.empty .freq [0, 2] = .ok (.orig .proba [0, 2]) ∧
-    predictPlan (κ := Nat) cfgOff true tOff Tab.empty .label [0, 2] = .ok (.direct .label [0, 2]) ∧
-    predictPlan (κ := Nat) cfgOff true tOff Tab.empty .freq [0, 2] = .ok (.direct .freq [0, 2]) := by
-  refine ⟨rfl, rfl, rfl, rfl, rfl, rfl⟩
+/-- the flag is never read by `fit` / `partial_fit` -/
+theorem step_speed_irrelevant (cfg : Cfg L W) (fitFn : Data L W → C) (pfitFn : C → Data L W → C)
+    (s : St C L W) (op : Op L W) (b : Bool) :
+    step { cfg with speed := b } fitFn pfitFn s op = step cfg fitFn pfitFn s op := by
+  cases op <;> rfl
+
+/-- the validation inside `fit` never looks at the object: if `fit` raises on one object it raises the
+same exception on any other (and leaves it unchanged) -/
+theorem fit_error_transfer (cfg : Cfg L W) (fitFn : Data L W → C) (s t s' : St C L W)
+    (idx : List Int) (y : Option (List L)) (sw : Option (List W)) (sb : Bool) (e : Err)
+    (h : fit cfg fitFn s idx y sw sb = (s', some e)) : fit cfg fitFn t idx y sw sb = (t, some e) := by
+  unfold fit at h ⊢
+  cases hc : checkIdx cfg idx with
+  | some e' => rw [hc] at h; simp only at h ⊢; injection h with _ h2; rw [h2]
+  | none =>
+    rw [hc] at h; simp only at h ⊢
+    cases hy : resolveY cfg idx y with
+    | error e' => rw [hy] at h; simp only at h ⊢; injection h with _ h2; rw [h2]
+    | ok yy =>
+      rw [hy] at h; simp only at h ⊢
+      cases hw : resolveSW cfg idx sw with
+      | error e' => rw [hw] at h; simp only at h ⊢; injection h with _ h2; rw [h2]
+      | ok ww =>
+        rw [hw] at h; simp only at h ⊢
+        cases hx : xIndexOk cfg idx with
+        | false => rw [hx] at h; simp only [Bool.not_false, if_true] at h ⊢; injection h with _ h2; rw [h2]
+        | true =>
+          rw [hx] at h
+          simp only [Bool.not_true, Bool.false_eq_true, if_false] at h
+          split at h <;> (injection h with _ h2; cases h2)
+
+/-- once a training record exists it never disappears -/
+theorem cur_some_preserved (cfg : Cfg L W) (fitFn : Data L W → C) (pfitFn : C → Data L W → C)
+    (s : St C L W) (op : Op L W) (hn : cfg.native = false) (h : s.cur ≠ none) :
+    (step cfg fitFn pfitFn s op).1.cur ≠ none := by
+  have hfit : ∀ (t : St C L W) idx y sw sb, t.cur ≠ none → (fit cfg fitFn t idx y sw sb).1.cur ≠ none := by
+    intro t idx y sw sb ht
+    rcases hfe : fit cfg fitFn t idx y sw sb with ⟨t', e⟩
+    cases e with
+    | some e => rw [fit_error_unchanged cfg fitFn t t' idx y sw sb e hfe]; exact ht
+    | none =>
+      obtain ⟨yy, ww, -, -, -, -, hs⟩ := fit_ok cfg fitFn t t' idx y sw sb hfe
+      subst hs
+      unfold fitResult
+      cases sb <;> simp [hn]
+  cases op with
+  | fit idx y sw sb => exact hfit s idx y sw sb h
+  | pfit idx y sw ub sb =>
+    simp only [step]
+    cases hv : validatePartial cfg s idx y sw ub with
+    | error e => rw [partialFit_rejected_unchanged cfg fitFn pfitFn s idx y sw ub sb e hv]; exact h
+    | ok p =>
+      obtain ⟨ay, aw⟩ := p
+      rw [partialFit_valid cfg fitFn pfitFn s idx y sw ub sb ay aw hv, hn]
+      simp only [Bool.false_eq_true, if_false]
+      unfold partialEmu
+      split
+      · exact h
+      simp only
+      split
+      · exact h
+      split
+      · simp
+      · exact hfit _ _ _ _ _ (by simp)
+
+/-- How the object with `use_speed_up=True` (`sOn`) relates to the one without (`sOff`) after the same
+calls: identical, except that before the first successful `fit` the speed-up object holds an unfitted
+precomputed clone where the other holds the copy of the classifier handed to the constructor (`orig`). -/
+def SpeedRel (orig : Option C) (sOn sOff : St C L W) : Prop :=
+  (sOff.cur ≠ none ∧ sOn = sOff) ∨
+  (sOff.cur = none ∧ sOn = ⟨none, none, sOff.bclf, sOff.base⟩ ∧ sOff.clf = orig)
+
+theorem speedRel_init (cfg : Cfg L W) (pre : Option C) (sb : Bool) (sOn sOff : St C L W)
+    (hOn : init { cfg with speed := true } pre sb = .ok sOn)
+    (hOff : init { cfg with speed := false } pre sb = .ok sOff) : SpeedRel pre sOn sOff := by
+  unfold init at hOn hOff
+  cases pre with
+  | some c =>
+    simp only [if_true, Bool.false_eq_true, if_false] at hOn hOff
+    injection hOn with hOn; injection hOff with hOff
+    subst hOn; subst hOff
+    exact Or.inr ⟨rfl, rfl, rfl⟩
+  | none =>
+    cases sb
+    · simp only [Bool.false_eq_true, if_false] at hOn hOff
+      injection hOn with hOn; injection hOff with hOff
+      subst hOn; subst hOff
+      exact Or.inr ⟨rfl, rfl, rfl⟩
+    · simp at hOn
+
+/-- **the relation survives every call, raising or not** (the emulated path: a Parzen window classifier
+has no native `partial_fit`) -/
+theorem speedRel_step (cfg : Cfg L W) (fitFn : Data L W → C) (pfitFn : C → Data L W → C) (orig : Option C)
+    (sOn sOff : St C L W) (op : Op L W) (hn : cfg.native = false) (hr : SpeedRel orig sOn sOff) :
+    SpeedRel orig (step { cfg with speed := true } fitFn pfitFn sOn op).1
+      (step { cfg with speed := false } fitFn pfitFn sOff op).1 := by
+  rw [step_speed_irrelevant cfg fitFn pfitFn sOn op true, step_speed_irrelevant cfg fitFn pfitFn sOff op false]
+  rcases hr with ⟨hc, he⟩ | ⟨hc, he, ho⟩
+  · subst he
+    exact Or.inl ⟨cur_some_preserved cfg fitFn pfitFn sOn op hn hc, rfl⟩
+  · subst he
+    cases op with
+    | fit idx y sw sb =>
+      simp only [step]
+      rcases hfe : fit cfg fitFn sOff idx y sw sb with ⟨t', e⟩
+      cases e with
+      | some e =>
+        -- both raise (the same validation, which never reads `clf_`) and stay as they were
+        have hOff := fit_error_unchanged cfg fitFn sOff t' idx y sw sb e hfe
+        subst hOff
+        have hOn := fit_error_transfer cfg fitFn t' (⟨none, none, t'.bclf, t'.base⟩ : St C L W) t' idx y sw sb e hfe
+        rw [hOn]
+        exact Or.inr ⟨hc, rfl, ho⟩
+      | none =>
+        obtain ⟨yy, ww, h1, h2, h3, h4, hs⟩ := fit_ok cfg fitFn sOff t' idx y sw sb hfe
+        rw [fit_of_valid cfg fitFn _ idx y sw sb yy ww h1 h2 h3 h4]
+        subst hs
+        refine Or.inl ⟨?_, ?_⟩
+        · unfold fitResult; cases sb <;> simp [hn]
+        · unfold fitResult; cases sb <;> simp [hn]
+    | pfit idx y sw ub sb =>
+      simp only [step]
+      -- without `idx_` the emulated `partial_fit` cannot get past its checks: nothing changes on either side
+      have hstay : ∀ (t : St C L W), t.cur = none → (partialFit cfg fitFn pfitFn t idx y sw ub sb).1 = t := by
+        intro t ht
+        cases hv : validatePartial cfg t idx y sw ub with
+        | error e => rw [partialFit_rejected_unchanged cfg fitFn pfitFn t idx y sw ub sb e hv]
+        | ok p =>
+          obtain ⟨ay, aw⟩ := p
+          rw [partialFit_valid cfg fitFn pfitFn t idx y sw ub sb ay aw hv, hn]
+          simp only [Bool.false_eq_true, if_false]
+          unfold partialEmu
+          rw [ht]
+      rw [hstay sOff hc, hstay _ rfl]
+      exact Or.inr ⟨hc, rfl, ho⟩
+
+theorem speedRel_run (cfg : Cfg L W) (fitFn : Data L W → C) (pfitFn : C → Data L W → C) (orig : Option C)
+    (hn : cfg.native = false) (ops : List (Op L W)) (sOn sOff : St C L W) (hr : SpeedRel orig sOn sOff) :
+    SpeedRel orig (run { cfg with speed := true } fitFn pfitFn sOn ops)
+      (run { cfg with speed := false } fitFn pfitFn sOff ops) := by
+  induction ops generalizing sOn sOff with
+  | nil => exact hr
+  | cons op ops ih =>
+    simp only [run]
+    exact ih _ _ (speedRel_step cfg fitFn pfitFn orig sOn sOff op hn hr)
+
+/-- What the classifiers compute: `direct c kind q` is `c.<kind>(X[q])` for a classifier with the original
+metric, `viaRows c kind rows` is the `metric="precomputed"` clone trained like `c` on the kernel rows. -/
+structure Sem (C κ R : Type) where
+  direct : C → Kind → List Nat → R
+  viaRows : C → Kind → List (List κ) → R
+
+/-- the answer a plan produces on a given object (`orig` = the classifier handed to the constructor) -/
+def Sem.eval {R : Type} (sem : Sem C κ R) (orig : Option C) (s : St C L W) : Plan κ → Option R
+  | .table kind rows => s.clf.map (fun c => sem.viaRows c kind rows)
+  | .direct kind qs => s.clf.map (fun c => sem.direct c kind qs)
+  | .orig kind qs => orig.map (fun c => sem.direct c kind qs)
+
+/-- `speedup_never_changes_prediction_state` — **whenever the speed-up object answers, the plain object
+gives the same answer** (`predict`, `predict_proba` and `predict_freq` alike, before and after the first
+`fit`): for related objects whose classifier is the fresh fit on the recorded list
+(`clf_is_fresh_fit_partial`), a sound table, a symmetric kernel, and a precomputed clone that computes
+from the kernel rows what the original computes from the samples (`hlink`: Parzen window, `K @ V_`). -/
+theorem speedup_never_changes_prediction_state {R : Type} (cfg : Cfg L W) (fitFn : Data L W → C)
+    (sem : Sem C κ R) (k : Nat → Nat → κ) (pre : Tab κ) (hs : TabSound k pre) (hsym : ∀ i j, k i j = k j i)
+    (hlink : ∀ d tr qs kind, mapOpt (normIdx cfg.n) d.idx = some tr →
+      sem.viaRows (fitFn d) kind (directRows k tr qs) = sem.direct (fitFn d) kind qs)
+    (orig : Option C) (sOn sOff : St C L W) (hr : SpeedRel orig sOn sOff)
+    (hcoh : ∀ c d, sOff.clf = some c → sOff.cur = some d → c = fitFn d)
+    (kind : Kind) (q : List Int) (pOn : Plan κ)
+    (h : predictPlan { cfg with speed := true } orig.isSome sOn pre kind q = .ok pOn) :
+    ∃ pOff, predictPlan { cfg with speed := false } orig.isSome sOff pre kind q = .ok pOff ∧
+      sem.eval orig sOn pOn = sem.eval orig sOff pOff ∧ sem.eval orig sOn pOn ≠ none := by
+  rcases hr with ⟨hc, he⟩ | ⟨hc, he, ho⟩
+  · subst he
+    cases hcur : sOn.cur with
+    | none => exact absurd hcur hc
+    | some d =>
+      simp only [predictPlan, if_true, hcur] at h
+      split at h
+      · cases h
+      rename_i rows hrows
+      split at h
+      · cases h
+      rename_i hclf
+      injection h with h; subst h
+      obtain ⟨tr, qs, htr, hqs, hdir⟩ := tableRows_eq_direct { cfg with speed := true } k pre hs hsym d.idx q rows hrows
+      cases hc' : sOn.clf with
+      | none => simp [hc'] at hclf
+      | some c =>
+        have hcd : c = fitFn d := hcoh c d hc' hcur
+        refine ⟨.direct kind qs, ?_, ?_, ?_⟩
+        · have hqs' : mapOpt (normIdx cfg.n) q = some qs := hqs
+          simp only [predictPlan, Bool.false_eq_true, if_false, hqs', hc']
+          simp
+        · simp only [Sem.eval, hc', Option.map_some, Option.some.injEq]
+          rw [hcd, hdir]
+          exact hlink d tr qs kind htr
+        · simp [Sem.eval, hc']
+  · subst he
+    simp only [predictPlan, if_true] at h
+    split at h
+    · cases h
+    rename_i qs hqs
+    split at h
+    · rename_i hof
+      injection h with h; subst h
+      cases horig : orig with
+      | none => rw [horig] at hof; simp at hof
+      | some c0 =>
+        refine ⟨.direct kind qs, ?_, ?_, ?_⟩
+        · have hqs' : mapOpt (normIdx cfg.n) q = some qs := hqs
+          simp only [predictPlan, Bool.false_eq_true, if_false, hqs', ho, horig]
+          simp
+        · simp [Sem.eval, ho, horig]
+        · simp [Sem.eval]
+    · cases h
+
+/-- `speedup_never_changes_prediction` — the same **over whole histories**: for every classifier handed
+to the constructor (fitted or not), every `set_base_clf`, every call sequence in which no raising call
+modified the plain object (the exception: the open findings on `partial_fit`, see
+`partialFit_error_not_atomic_counterexample`), every kind of prediction and every query. -/
+theorem speedup_never_changes_prediction {R : Type} (cfg : Cfg L W) (fitFn : Data L W → C)
+    (pfitFn : C → Data L W → C) (hn : cfg.native = false)
+    (sem : Sem C κ R) (k : Nat → Nat → κ) (pre : Tab κ) (hs : TabSound k pre) (hsym : ∀ i j, k i j = k j i)
+    (hlink : ∀ d tr qs kind, mapOpt (normIdx cfg.n) d.idx = some tr →
+      sem.viaRows (fitFn d) kind (directRows k tr qs) = sem.direct (fitFn d) kind qs)
+    (orig : Option C) (sb : Bool) (sOn sOff : St C L W)
+    (hOn : init { cfg with speed := true } orig sb = .ok sOn)
+    (hOff : init { cfg with speed := false } orig sb = .ok sOff)
+    (ops : List (Op L W)) (hclean : CleanRun { cfg with speed := false } fitFn pfitFn sOff ops)
+    (kind : Kind) (q : List Int) (pOn : Plan κ)
+    (h : predictPlan { cfg with speed := true } orig.isSome
+      (run { cfg with speed := true } fitFn pfitFn sOn ops) pre kind q = .ok pOn) :
+    ∃ pOff, predictPlan { cfg with speed := false } orig.isSome
+        (run { cfg with speed := false } fitFn pfitFn sOff ops) pre kind q = .ok pOff ∧
+      sem.eval orig (run { cfg with speed := true } fitFn pfitFn sOn ops) pOn =
+        sem.eval orig (run { cfg with speed := false } fitFn pfitFn sOff ops) pOff := by
+  have hrel := speedRel_run cfg fitFn pfitFn orig hn ops sOn sOff (speedRel_init cfg orig sb sOn sOff hOn hOff)
+  have hinv := clf_is_fresh_fit_partial { cfg with speed := false } fitFn pfitFn hn ops sOff
+    (init_inv _ fitFn orig sb sOff hOff) hclean
+  obtain ⟨pOff, h1, h2, -⟩ := speedup_never_changes_prediction_state cfg fitFn sem k pre hs hsym hlink orig _ _ hrel
+    hinv.2.2.1 kind q pOn h
+  exact ⟨pOff, h1, h2⟩
 
 /-- Parzen window frequencies are a function of the kernel rows only, so they agree as well. -/
 theorem freqRows_table_eq_direct [Add κ] [Mul κ] [OfNat κ 0] [OfNat κ 1] (cfg : Cfg L W) (eqL : L → L → Bool)
@@ -744,6 +972,60 @@ theorem freqRows_table_eq_direct [Add κ] [Mul κ] [OfNat κ 0] [OfNat κ 1] (cf
       freqRows eqL rows y sw classes = freqRows eqL (directRows k tr qs) y sw classes := by
   obtain ⟨tr, qs, h1, h2, h3⟩ := tableRows_eq_direct cfg k pre hs hsym train q rows h
   exact ⟨tr, qs, h1, h2, by rw [h3]⟩
+
+end Ska.C19
+
+/-! ## Regressions: statements about definitions the code no longer has -/
+
+namespace Ska.C19.Regressions
+open Ska Ska.IW
+
+/-- `predictPlan` as the code was before /repo commit 1805c2fd: in the speed-up branch without `idx_`
+all three methods returned `self.clf.predict_proba(...)`. -/
+def predictPlanV0 {C L W κ : Type} (cfg : Cfg L W) (origFitted : Bool) (s : St C L W) (pre : Tab κ)
+    (kind : Kind) (q : List Int) : Except Err (Plan κ) :=
+  if cfg.speed then
+    match s.cur with
+    | some d =>
+      match tableRows cfg pre d.idx q with
+      | .error e => .error e
+      | .ok rows => if s.clf.isNone then .error .notFitted else .ok (.table kind rows)
+    | none =>
+      match mapOpt (normIdx cfg.n) q with
+      | none => .error .index
+      | some qs => if origFitted then .ok (.orig .proba qs) else .error .notFitted
+  else
+    match mapOpt (normIdx cfg.n) q with
+    | none => .error .index
+    | some qs => if s.clf.isNone then .error .notFitted else .ok (.direct kind qs)
+
+/-- `speedup_prefitted_counterexample` (old code) — a Parzen window classifier handed over already
+fitted, no `fit` through the wrapper yet: with the speed-up `predict` and `predict_freq` answered with
+`self.clf.predict_proba(...)`, without it with `clf_.predict` / `clf_.predict_freq`. -/
+theorem speedup_prefitted_counterexample :
+    let cfgOn : Cfg Nat Nat := ⟨3, [0, 1, 0], none, false, false, true⟩
+    let cfgOff : Cfg Nat Nat := ⟨3, [0, 1, 0], none, false, false, false⟩
+    let tOn : St Nat Nat Nat := ⟨none, none, none, none⟩
+    let tOff : St Nat Nat Nat := ⟨some 7, none, none, none⟩
+    predictPlanV0 (κ := Nat) cfgOn true tOn Tab.empty .label [0, 2] = .ok (.orig .proba [0, 2]) ∧
+    predictPlanV0 (κ := Nat) cfgOn true tOn Tab.empty .freq [0, 2] = .ok (.orig .proba [0, 2]) ∧
+    predictPlanV0 (κ := Nat) cfgOff true tOff Tab.empty .label [0, 2] = .ok (.direct .label [0, 2]) ∧
+    predictPlanV0 (κ := Nat) cfgOff true tOff Tab.empty .freq [0, 2] = .ok (.direct .freq [0, 2]) := by
+  refine ⟨rfl, rfl, rfl, rfl⟩
+
+/-- the repaired code on the same input: the object handed to the constructor answers with the method
+that was asked for -/
+theorem speedup_prefitted_repaired :
+    let cfgOn : Cfg Nat Nat := ⟨3, [0, 1, 0], none, false, false, true⟩
+    let tOn : St Nat Nat Nat := ⟨none, none, none, none⟩
+    predictPlan (κ := Nat) cfgOn true tOn Tab.empty .label [0, 2] = .ok (.orig .label [0, 2]) ∧
+    predictPlan (κ := Nat) cfgOn true tOn Tab.empty .freq [0, 2] = .ok (.orig .freq [0, 2]) := by
+  refine ⟨rfl, rfl⟩
+
+end Ska.C19.Regressions
+
+namespace Ska.C19
+open Ska Ska.IW
 
 /-! ## Non-vacuity: concrete instances meet the hypotheses -/
 
